@@ -2449,7 +2449,7 @@ def _run(ctx, workdir):
     for k_ in ("2", "3", "4"):
         if om.get(k_, 0) < 1:
             floors.append("no over-sized entry of exactly %s batches was sent" % k_)
-    if om.get("stale_leader_histories_with_oversized_entry_during_walkback", 0) < ctx.scale(4, 60):
+    if om.get("stale_leader_histories_with_oversized_entry_during_walkback", 0) < ctx.scale(4, 25):
         floors.append("stale_leader histories with an over-sized entry met during the walk back: %d"
                       % om.get("stale_leader_histories_with_oversized_entry_during_walkback", 0))
     if om.get("quiet_period_commands_exact", 0) < 2:
